@@ -23,7 +23,7 @@ RULE = (
     "names: 4 names x 5 render entry points and x 8 binding forms. distinct = (sites, read site, strict, layout); "
     "non-trivial = at least two binding sites compete, or the name is unbound."
 )
-RULE += " added since: 12 layouts with decoy names, read sites 'def called through <%call>' and 'second expression of a tag attribute', identity checks of the UNDEFINED singleton, falsy context values (None, 0, '', False, [], 0.0) under both strict settings. read sites on `% elif` / `% except` lines only and in the default of a def nested in another def."
+RULE += " added since: 12 layouts with decoy names, read sites 'def called through <%call>' and 'second expression of a tag attribute', identity checks of the UNDEFINED singleton, falsy context values (None, 0, '', False, [], 0.0) under both strict settings. read sites on `% elif` / `% except` lines only and in the default of a def nested in another def. the <%page> argument written keyword-only in every other combination."
 ASSUMPTIONS = [
     "when a name is bound both at module level and by a body assignment / <%page> argument, what a def or named "
     "block (separate callables that receive body values through the context) sees is not asserted",
@@ -133,7 +133,9 @@ def build(sites, read, name, layout):
     nl = layout["nl"]
     pre = []
     if "page" in s:
-        pre.append('<%%page args="%s=\'page:%s\'"/>' % (name, name))
+        # (the page argument is written keyword-only in every other combination: it is an argument all the same)
+        star = "*, " if (len(sites) + len(read)) % 2 == 0 else ""
+        pre.append('<%%page args="%s%s=\'page:%s\'"/>' % (star, name, name))
     if "mod" in s:
         pre.append("<%%! %s = 'mod:%s' %%>" % (name, name))
     if "nsimport" in s:
